@@ -6,13 +6,14 @@ import itertools
 from hypothesis import strategies as st
 
 from .. import discsim, harness, vloop
+from .. import refcodec as rc
 from ..devsim import SimDevice
 from ..model_ac import ModelAC
 
 ID = "C18"
 LEVEL = "exploration"
 SHARDS = {"quick": 8, "thorough": 16}
-RULE = ("(well-formed hosts may carry an address inside their reply that differs from the one they answer from: another host's, 0.0.0.0, a foreign one) up to 4 hosts; each good host sends 1..6 identical well-formed replies from ports {6445, 20086}; each bad host sends "
+RULE = ("(a well-formed host may answer the two probes in different reply formats, V2 and V3; well-formed hosts may carry an address inside their reply that differs from the one they answer from: another host's, 0.0.0.0, a foreign one) up to 4 hosts; each good host sends 1..6 identical well-formed replies from ports {6445, 20086}; each bad host sends "
         "replies of one bad class (random bytes incl. ones starting 5A5A / 8370, valid envelope with the body cut at every length "
         "0..45, non-UTF-8 serial or name, name without separators / non-hex type / wrong name length, bad PKCS#7 under the fixed "
         "key, V3 wrapper too short, XML without body/device, without attributes, with non-numeric or unreachable port, empty "
@@ -43,23 +44,36 @@ def check_case(case: dict):
             h = hosts[hi]
             k = len(per_host[hi])
             if h["good"]:
-                payload = discsim.good_reply(h)
+                # a host may answer the two probes in different formats (a V3 unit also sending a bare V2-format reply)
+                payload = discsim.good_reply(dict(h, version=h["alt"]) if (h.get("alt") and k % 2 == 1) else h)
             else:
                 payload = discsim.bad_reply(h["kind"], h["args"][k % len(h["args"])], h["ip"])
-            delay = 0.01 + pos * case.get("spacing", 0.001)
+            delay = 0.01 + pos * case.get("spacing", 0.001) + pos * 1e-6       # (arrival order = `order`, also for spacing 0)
             per_host[hi].append((delay, [6445, 20086][(pos + hi) % 2], payload))
         routes = {"10.255.255.255": [h["ip"] for h in hosts]} if case.get("target") == "directed" else {}
         world = discsim.UdpWorld(net, [dict(ip=h["ip"], listen_port=h.get("listen_port", 6445), replies=per_host[i]) for i, h in enumerate(hosts)], routes)
-        auto = bool(case.get("auto_connect")) and not any(h["good"] and h["version"] == 3 for h in hosts)   # V3 auto-connect needs the cloud: C19
+        auto = bool(case.get("auto_connect")) and (case.get("cloud") or not any(h["good"] and h["version"] == 3 for h in hosts))   # V3 auto-connect needs the cloud
+        auto = auto and not any(h.get("alt") for h in hosts)      # (a host answering in both formats is not backed by a model device)
+        kw = {}
         if auto:
             for h in hosts:
                 if h["good"] and h["version"] == 2 and h["tt"] == 0xAC:
-                    net.listen(h["ip"], h["port"], SimDevice(loop, version=2, device_id=h["id"], ac=ModelAC()))
+                    net.listen(h["ip"], h["port"], SimDevice(loop, version=2, device_id=h["id"] & 0xFFFFFFFFFFFF, ac=ModelAC()))
+            if case.get("cloud"):
+                # V3 hosts are backed by model devices holding the credentials the model cloud hands out for their id
+                from msmart.cloud import NetHomePlusCloud
+                from ..model_cloud import ModelCloud, creds_for
+                mc = ModelCloud(dict(NetHomePlusCloud.CLOUD_CREDENTIALS.values()))
+                kw["get_async_client"] = mc.client_factory()
+                for h in hosts:
+                    if h["good"] and h["version"] == 3:
+                        t, k = creds_for(rc.udpid((h["id"] & 0xFFFFFFFFFFFF).to_bytes(6, "little")).hex())
+                        net.listen(h["ip"], h["port"], SimDevice(loop, version=3, device_id=h["id"] & 0xFFFFFFFFFFFF, token=bytes.fromhex(t), key=bytes.fromhex(k), ac=ModelAC()))
         try:
             if case.get("target") == "directed":
-                res["devices"] = await Discover.discover(target="10.255.255.255", auto_connect=auto, timeout=5)
+                res["devices"] = await Discover.discover(target="10.255.255.255", auto_connect=auto, timeout=5, **kw)
             else:
-                res["devices"] = await Discover.discover(auto_connect=auto, timeout=5)
+                res["devices"] = await Discover.discover(auto_connect=auto, timeout=5, **kw)
         except BaseException as e:
             res["exc"] = e
         res["cb"] = [str(c.get("exception")) for c in loop.callback_exceptions]
@@ -79,10 +93,14 @@ def check_case(case: dict):
     for d in devs:
         h = next(x for x in hosts if x["ip"] == d.ip)
         name = discsim.host_name(h["tt"], h["suffix"])
-        if (d.port, d.id, d.sn, d.name, int(d.type), d.version) != (h["port"], h["id"], h["sn"], name, h["tt"], h["version"]):
+        if (d.port, d.id, d.sn, d.name, int(d.type)) != (h["port"], h["id"] & 0xFFFFFFFFFFFF, h["sn"], name, h["tt"]) or d.version not in (h["version"], h.get("alt", h["version"])):
             return ("identity", f"host {d.ip} reported with {(d.port, d.id, d.sn, d.name, int(d.type), d.version)}")
+        if any(x.get("alt") for x in hosts):
+            continue
         if case.get("auto_connect") and not any(x["good"] and x["version"] == 3 for x in hosts) and h["version"] == 2 and h["tt"] == 0xAC and not d.online:
             return ("auto-connect/offline", f"V2 host {d.ip} backed by a responsive device is reported offline")
+        if case.get("auto_connect") and case.get("cloud") and h["tt"] == 0xAC and not h.get("reported_ip") and not d.online:
+            return ("auto-connect/offline", f"host {d.ip} (version {h['version']}) backed by a responsive device is reported offline")
     return None
 
 
@@ -174,12 +192,40 @@ def run(ctx) -> None:
                     case = {"hosts": hs, "order": order, "target": "directed" if e % 3 == 0 else None}
                     ctx.check(case, lambda c: _run_one(ctx, c))
     ctx.sweep("embedded address differs from the source address x arrival orders", e, True)
+    # one host answering in both formats, with other traffic (hence loop iterations) in between
+    v = 0
+    for first, alt in ((2, 3), (3, 2)):
+        for order in ([0, 0], [0, 1, 0], [0, 1, 1, 0], [0, 1, 0, 1, 0], [1, 0, 0, 1]):
+            for spacing in (0.0, 0.001, 0.3):
+                v += 1
+                if ctx.mine(v):
+                    hs = [dict(_good_host(0, first), good=True, kind="good", alt=alt), dict(_good_host(1, 2), good=True, kind="good")]
+                    case = {"hosts": hs, "order": order, "spacing": spacing}
+                    ctx.check(case, lambda c: _run_one(ctx, c))
+    ctx.sweep("one host answering in both reply formats x arrival orders x spacing", v, True)
+    # auto-connect with V3 hosts (model cloud + model devices) next to malformed responders and hosts whose reply header
+    # carries non-zero bytes above the 48-bit id
+    a = 0
+    for kind, arg in (("cut", 17), ("xml", 2), ("name", 1), ("badpad", 0), ("random5a", "00" * 30), (None, None)):
+        for hi in (0, 1, 0xFFFF):
+            for order in ([0, 1, 2], [2, 1, 0], [1, 2, 0, 1]):
+                a += 1
+                if ctx.mine(a):
+                    g2 = dict(_good_host(0, 2), good=True, kind="good")
+                    g3 = dict(_good_host(1, 3), good=True, kind="good")
+                    g3["id"] |= hi << 48
+                    third = _bad_host(0, kind, [arg]) if kind else dict(_good_host(2, 3, 0xA1), good=True, kind="good", id=0x0000BEEF0001 | ((hi ^ 1) << 48))
+                    case = {"hosts": [g2, g3, third], "order": order, "auto_connect": True, "cloud": True}
+                    ctx.check(case, lambda c: _run_one(ctx, c))
+    ctx.sweep("auto-connect incl. V3 (model cloud) x malformed neighbour x bytes above the id", a, True)
 
     def mk_case(spec):
         hosts = []
         for i, (good, version, tt, kind, seed) in enumerate(spec["hosts"]):
             if good:
                 hosts.append(dict(_good_host(i, version, tt), good=True, kind="good"))
+                if seed % 5 == 0:
+                    hosts[-1]["alt"] = 5 - version
             else:
                 args = _args_for(kind, rnd_bytes)
                 hosts.append(_bad_host(i, kind, [args[(seed + j) % len(args)] for j in range(3)]))
@@ -188,13 +234,14 @@ def run(ctx) -> None:
         for i, (h, e) in enumerate(zip(hosts, spec.get("embed", []))):
             if h["good"] and e:
                 h["reported_ip"] = {"next": hosts[(i + 1) % len(hosts)]["ip"], "prev": hosts[i - 1]["ip"], "zero": "0.0.0.0", "other": "192.168.77.7"}[e]
-        return {"hosts": hosts, "order": order, "auto_connect": spec["auto"] and not any(h.get("reported_ip") for h in hosts), "spacing": spec["spacing"], "target": spec["target"]}
+        return {"hosts": hosts, "order": order, "auto_connect": spec["auto"] and not any(h.get("reported_ip") for h in hosts), "spacing": spec["spacing"], "target": spec["target"],
+                "cloud": spec.get("cloud", False)}
 
     host = st.tuples(st.booleans(), st.sampled_from([2, 3]), st.sampled_from([0xAC, 0xAC, 0xA1, 0xFF]), st.sampled_from(discsim.BAD_KINDS), st.integers(0, 60))
     embed = st.sampled_from([None, None, "next", "prev", "zero", "other"])
     cases = st.fixed_dictionaries({"hosts": st.lists(host, min_size=1, max_size=4), "order": st.lists(st.integers(0, 3), min_size=1, max_size=14),
                                    "auto": st.booleans(), "spacing": st.sampled_from([0.0, 0.001, 0.2]), "target": st.sampled_from([None, None, "directed"]),
-                                   "embed": st.lists(embed, min_size=4, max_size=4)}).map(mk_case)
+                                   "embed": st.lists(embed, min_size=4, max_size=4), "cloud": st.booleans()}).map(mk_case)
     ctx.hyp("random", cases, lambda c: _run_one(ctx, c), ctx.n(4000, 200000))
     # byte-level search (atheris/libFuzzer) over raw datagrams and fuzzer-chosen bodies inside well-formed envelopes; an
     # additional search, the verdict never depends on it being available
